@@ -94,6 +94,20 @@ def check(F, rep, tier):
     validator_complete(F, rep)
     validator_vs_resolver(F, rep)
     whole_document(F, rep)
+    # ---- R12.6 dependencies ------------------------------------------------------------------------------------------------------
+    # "the emitted object re-reads to itself / pipe == direct" needs the object to be normalised AFTER the overrides and bumps
+    # (epoch Some(0) -> None), and "malformed input is refused" needs stdin to be decoded strictly
+    core.borrow(F, rep, "c05", "C05", "R12.6", ("R05.7:phase-order",), "overrides and bumps are applied before normalize()")
+    ex = F.fn("crate::cli::app::extract_stdin_once")
+    if rep.anchor("R12.6", "cli::app::extract_stdin_once", ex):
+        rep.fn_seen(ex)
+        exi = mir.inlined(F, ex, depth=2, ok=lambda F_, caller, cp, g: g is not None and g.kind != "closure" and cp.startswith("crate::cli::app::"))
+        names = [mir.callee(t) or "" for bi, t in exi.calls()]
+        lossy = [c for c in names if any(x in c for x in ("from_utf8_lossy", "from_utf8_unchecked", "from_utf16_lossy"))]
+        strict = [c for c in names if c.endswith("Read::read_to_string") or c.endswith("io::read_to_string") or c.endswith("String::from_utf8") or c.endswith("str::from_utf8") or c.endswith("::read_line")]
+        if lossy: rep.bad("R12.6", "stdin-lossy-decoding", "stdin is decoded with %s: a document that is not valid UTF-8 is silently altered and then parsed instead of being refused" % [c.rsplit("::", 1)[-1] for c in lossy], ex.where())
+        elif strict: rep.ok("R12.6", "stdin is read with a UTF-8 validating read (%s)" % sorted({c.rsplit("::", 1)[-1] for c in strict}), nontrivial_key="stdinutf8")
+        else: rep.undecided("R12.6", "stdin-decoding-shape", "how stdin is decoded is not recognised (%s)" % [c.rsplit("::", 1)[-1] for c in names][:6], ex.where())
     return core.finish(rep, explanation=EXPL, assumptions=ASSUME, trusted=TRUST)
 
 def handwritten_pair(F, rep, ty, ser, de):
